@@ -76,15 +76,30 @@ pub fn main(opts: &Opts) {
                 let areas = exclusively_owned_areas(&boxes);
                 exclusively_owned_areas_normalized_shares(&boxes, &areas)
             });
+            // C14: nms over the object itself (with whatever it has cached) and the probe, both rank orders
+            let mut nms_out: Vec<(i64, i64, i64, Vec<i64>)> = vec![];
+            let mut dets = vec![(b, Some(0.0f32)), (p.clone(), Some(0.0f32))];
+            for nc in jarr(&c, "nms") {
+                let hi = jint(nc, "hi");
+                let t = jarr(nc, "thr");
+                dets[0].1 = Some(if hi == 1 { 2.0 } else { 1.0 });
+                dets[1].1 = Some(if hi == 1 { 1.0 } else { 2.0 });
+                let idx: Vec<i64> = similari::utils::nms::nms(&dets, ji(&t[0]) as f32 / ji(&t[1]) as f32, None)
+                    .iter()
+                    .map(|x| if std::ptr::eq(*x, &dets[0].0) { 1 } else if std::ptr::eq(*x, &dets[1].0) { 2 } else { 0 })
+                    .collect();
+                nms_out.push((hi, ji(&t[0]), ji(&t[1]), idx));
+            }
+            let mut b = dets.swap_remove(0).0;
             // the polygon of the object as it is now (both the fresh and the re-generated one)
             let v1: Vec<(f64, f64)> = b.get_vertices().exterior().points().map(|p| (p.x(), p.y())).collect();
             let mut b2 = b.clone();
             b2.xc = b.xc;
             b.gen_vertices();
             let v2: Vec<(f64, f64)> = b.get_cached_vertices().as_ref().map(|p| p.exterior().points().map(|q| (q.x(), q.y())).collect()).unwrap_or_default();
-            (i1, i2, iou, own.ok(), b.area(), v1, v2)
+            (i1, i2, iou, own.ok(), b.area(), v1, v2, nms_out)
         });
-        let (i1, i2, iou, own, area, v1, v2) = match r {
+        let (i1, i2, iou, own, area, v1, v2, nms_out) = match r {
             Ok(x) => x,
             Err(_) => {
                 rep.mismatch("boxobj:panic", idx, &c, json!({}));
@@ -107,6 +122,18 @@ pub fn main(opts: &Opts) {
             }
         }
         if focus == "c19" {
+            return;
+        }
+        if focus == "c14" || focus == "all" {
+            for (nc, got) in jarr(&c, "nms").iter().zip(nms_out.iter()) {
+                let exp: Vec<i64> = jarr(nc, "out").iter().map(ji).collect();
+                if exp != got.3 {
+                    rep.mismatch("boxobj:nms", idx, &c, json!({"object_ranked_higher": got.0, "thr": [got.1, got.2], "spec": exp, "impl": got.3}));
+                    return;
+                }
+            }
+        }
+        if focus == "c14" {
             return;
         }
         if focus != "c15" {
